@@ -197,7 +197,85 @@ fn check(b: &Batch, evals: &mut u64) -> Result<Option<usize>, (String, String)> 
     }
     compare("payload", &out, &x.code, &by_path)?;
     runs += 1;
+    // JUnit: the <testsuite> of a data file in a batch is the one that validating this file alone gives
+    // (elapsed times masked), and the totals of <testsuites> are the sums over the suites
+    let ju = VOpts::structured(Fmt::Junit);
+    *evals += 1;
+    let x = validate_files(&ordered_r, &ordered_d, &[], &ju, "");
+    if let Some(p) = &x.panic {
+        return Err((format!("junit: panic {}", p), format!("panic:{}", p.split(' ').next().unwrap_or(""))));
+    }
+    if x.code != Ok(want_code) {
+        return Err((format!("junit: exit {:?}, the singletons give {}", x.code, want_code), "c12:exit-code".into()));
+    }
+    let batch = junit_suites(&x.out);
+    if batch.len() != ordered_d.len() {
+        return Err((format!("junit: {} <testsuite> elements for {} data files", batch.len(), ordered_d.len()), "c12:report-count".into()));
+    }
+    let (mut fsum, mut esum) = (0usize, 0usize);
+    for d in &ordered_d {
+        *evals += 1;
+        let y = validate_files(&ordered_r, &[d.clone()], &[], &ju, "");
+        let alone = junit_suites(&y.out);
+        let name = format!("<testsuite name=\"{}\"", xml_attr(d));
+        let got = batch.iter().find(|s| s.starts_with(&name));
+        let want = alone.iter().find(|s| s.starts_with(&name));
+        match (got, want) {
+            (Some(g), Some(w)) if g == w => {
+                fsum += attr_num(g, "failures").unwrap_or(0);
+                esum += attr_num(g, "errors").unwrap_or(0);
+            }
+            (Some(g), Some(w)) => {
+                return Err((
+                    format!("junit: the <testsuite> of {} in the batch differs from the one of validating it alone: batch {:?} vs alone {:?}", d, g.chars().take(400).collect::<String>(), w.chars().take(400).collect::<String>()),
+                    "c12:junit-suite-differs".into(),
+                ))
+            }
+            _ => return Err((format!("junit: no <testsuite> named {}", d), "c12:report-missing".into())),
+        }
+    }
+    let head = x.out.find("<testsuites").map(|i| &x.out[i..]).and_then(|t| t.find('>').map(|e| &t[..e])).unwrap_or("");
+    if attr_num(head, "failures") != Some(fsum) || attr_num(head, "errors") != Some(esum) {
+        return Err((format!("junit: totals {:?} are not the sums over the suites (failures {}, errors {})", head, fsum, esum), "c12:junit-totals".into()));
+    }
+    runs += 1;
     Ok(Some(runs))
+}
+
+fn xml_attr(s: &str) -> String {
+    s.replace('&', "&amp;").replace('<', "&lt;").replace('>', "&gt;").replace('"', "&quot;")
+}
+
+fn attr_num(el: &str, name: &str) -> Option<usize> {
+    let head = &el[..el.find('>').unwrap_or(el.len())];
+    let k = format!(" {}=\"", name);
+    let i = head.find(&k)? + k.len();
+    head[i..].split('"').next()?.parse().ok()
+}
+
+/// the `<testsuite ..>..</testsuite>` elements of a JUnit report as text, `time` attributes masked
+fn junit_suites(xml: &str) -> Vec<String> {
+    let mut out = vec![];
+    let mut rest = xml;
+    while let Some(i) = rest.find("<testsuite ") {
+        let t = &rest[i..];
+        let end = match (t.find("</testsuite>"), t.find("/>")) {
+            (Some(e), _) => e + "</testsuite>".len(),
+            (None, Some(e)) => e + 2,
+            _ => t.len(),
+        };
+        let mut el = String::new();
+        let mut r = &t[..end];
+        while let Some(k) = r.find(" time=\"") {
+            el.push_str(&r[..k]);
+            let after = &r[k + 7..];
+            r = &after[after.find('"').map(|q| q + 1).unwrap_or(after.len())..];
+        }
+        el.push_str(r);
+        out.push(el);
+        rest = &t[end..];
+    }
+    out
 }
 
 fn batch_json(b: &Batch) -> J {
